@@ -645,7 +645,8 @@ func UnpackRRWithHeader(h RR_Header, msg []byte, off int) (rr RR, off1 int, err 
 		return rr, off, nil
 	}
 
-	off, err = rr.unpack(msg, off)
+	// The per-type unpackers read some fields up to the end of the buffer.
+	off, err = rr.unpack(msg[:end], off)
 	if err != nil {
 		return nil, end, err
 	}
